@@ -277,10 +277,16 @@ private:
 };
 
 // Event payload with a value (checksum is derived so corruption is visible)
-class Tracked : public LedgeredT<3>
+// In the fault-injection builds its move constructor and move assignment are fault points too (a payload whose move can throw)
+#ifdef VF_FAULTS
+typedef LedgeredT<3, true> TrackedBase;
+#else
+typedef LedgeredT<3> TrackedBase;
+#endif
+class Tracked : public TrackedBase
 {
 public:
-	explicit Tracked(int serial = 0, int value_ = 0) : LedgeredT<3>(kPayloadBase + serial), value(value_), chk(value_ * 31 + 7) {}
+	explicit Tracked(int serial = 0, int value_ = 0) : TrackedBase(kPayloadBase + serial), value(value_), chk(value_ * 31 + 7) {}
 	int serial() const { return id - kPayloadBase; }
 	bool intact() const { return magicOk() && chk == value * 31 + 7 && ! isMoved(); }
 	int value;
